@@ -240,6 +240,10 @@ func (w *Workspace) UpdateFile(path, content string) {
 	if !w.isWorkspaceFileLocked(path) {
 		return
 	}
+	if w.loader != nil && int64(len(content)) > w.loader.Limits().MaxFileSizeBytes {
+		w.refuseFileLocked(path, len(content))
+		return
+	}
 
 	oldIndex := w.index.FileIndex(path)
 	oldIncludes := []string(nil)
@@ -253,10 +257,40 @@ func (w *Workspace) UpdateFile(path, content string) {
 	w.updateResolvedLocked(path, journal)
 	w.clearCachesLocked()
 
-	if !sameStringSlice(oldIncludes, fileIndex.Includes) {
+	// a file that was no member (beyond the depth limit, or refused for its
+	// size) is named by a directive but may still not belong to the tree
+	if oldIndex == nil || !sameStringSlice(oldIncludes, fileIndex.Includes) {
 		w.refreshIncludeTreeLocked()
 		w.reorderFilesLocked()
 	}
+}
+
+// refuseFileLocked handles a text larger than the size limit the way a fresh
+// resolution does: the file is no member of the workspace (the root journal:
+// the workspace is empty), and what only it made reachable leaves with it. The
+// directives naming it stay, so a later, smaller text joins again.
+func (w *Workspace) refuseFileLocked(path string, size int) {
+	w.clearCachesLocked()
+	if path == w.rootJournalPath {
+		w.resolved = nil
+		w.index = NewWorkspaceIndex()
+		w.includeGraph = make(map[string][]string)
+		w.reverseGraph = make(map[string][]string)
+		w.loadErrors = []include.LoadError{{
+			Kind:    include.ErrorFileTooLarge,
+			Path:    path,
+			Message: fmt.Sprintf("file too large: %d bytes (max %d)", size, w.loader.Limits().MaxFileSizeBytes),
+		}}
+		return
+	}
+	if oldIndex := w.index.FileIndex(path); oldIndex != nil {
+		w.updateIncludeEdgesLocked(path, oldIndex.Includes, nil)
+		w.index.RemoveFile(path)
+	}
+	delete(w.includeGraph, path)
+	w.updateResolvedLocked(path, nil)
+	w.refreshIncludeTreeLocked()
+	w.reorderFilesLocked()
 }
 
 // reorderFilesLocked puts FileOrder into the order a fresh resolution gives:
@@ -270,20 +304,18 @@ func (w *Workspace) reorderFilesLocked() {
 	}
 	seen := map[string]bool{w.rootJournalPath: true}
 	order := make([]string, 0, len(w.resolved.FileOrder))
-	var visit func(path string)
-	visit = func(path string) {
-		for _, inc := range w.includeGraph[path] {
-			if seen[inc] {
-				continue
-			}
-			seen[inc] = true
-			if _, member := w.resolved.Files[inc]; member {
-				order = append(order, inc)
-			}
-			visit(inc)
+	// the same walk that decides membership: it stops where the depth limit
+	// stops a resolution
+	_, walk := w.computeReachableLocked()
+	for _, path := range walk {
+		if seen[path] {
+			continue
+		}
+		seen[path] = true
+		if _, member := w.resolved.Files[path]; member {
+			order = append(order, path)
 		}
 	}
-	visit(w.rootJournalPath)
 	// anything the walk did not reach keeps its place at the end
 	for _, path := range w.resolved.FileOrder {
 		if !seen[path] {
@@ -356,42 +388,35 @@ func (w *Workspace) refreshIncludeTreeLocked() {
 }
 
 // computeReachableLocked returns the files reachable from the root journal,
-// as a set and in the order in which following the include directives finds
-// them.
+// as a set and in the order in which a fresh resolution finds them: depth
+// first, following the include directives of each file in turn, every file at
+// its first visit. The include depth limit holds as it does there: it counts
+// the level of that first visit (the root journal is at level 0, a file
+// included from level k needs k+1 < limit), not the shortest path.
 func (w *Workspace) computeReachableLocked() (map[string]bool, []string) {
 	reachable := make(map[string]bool)
 	var order []string
 	if w.rootJournalPath == "" {
 		return reachable, order
 	}
-	// the include depth limit holds here as it does for a fresh resolution:
-	// the root journal is at level 0, a file at level k needs k < limit
 	maxDepth := include.DefaultLimits().MaxIncludeDepth
 	if w.loader != nil {
 		maxDepth = w.loader.Limits().MaxIncludeDepth
 	}
-	type visit struct {
-		path  string
-		depth int
-	}
-	queue := []visit{{w.rootJournalPath, 0}}
-	for len(queue) > 0 {
-		v := queue[0]
-		queue = queue[1:]
-		if reachable[v.path] {
-			continue
-		}
-		reachable[v.path] = true
-		order = append(order, v.path)
-		if v.depth+1 >= maxDepth {
-			continue
-		}
-		for _, inc := range w.includeGraph[v.path] {
-			if !reachable[inc] {
-				queue = append(queue, visit{inc, v.depth + 1})
+	var visit func(path string, depth int)
+	visit = func(path string, depth int) {
+		for _, inc := range w.includeGraph[path] {
+			if reachable[inc] || depth+1 >= maxDepth {
+				continue
 			}
+			reachable[inc] = true
+			order = append(order, inc)
+			visit(inc, depth+1)
 		}
 	}
+	reachable[w.rootJournalPath] = true
+	order = append(order, w.rootJournalPath)
+	visit(w.rootJournalPath, 0)
 	return reachable, order
 }
 
